@@ -702,7 +702,7 @@ def decorate_with_checker(func: CallableT) -> CallableT:
         async def wrapper(*args, **kwargs):  # type: ignore
             """Wrap func by checking the preconditions and postconditions."""
             kwargs_error = _assert_no_invalid_kwargs(kwargs)
-            if kwargs_error:
+            if kwargs_error is not None:
                 raise kwargs_error
 
             # We need to create a new in-progress set if it is None as the ``ContextVar`` does not accept
@@ -737,13 +737,13 @@ def decorate_with_checker(func: CallableT) -> CallableT:
                 type_error = _assert_resolved_kwargs_valid(
                     postconditions, resolved_kwargs
                 )
-                if type_error:
+                if type_error is not None:
                     raise type_error
 
                 violation_error = await _assert_preconditions_async(
                     preconditions=preconditions, resolved_kwargs=resolved_kwargs
                 )
-                if violation_error:
+                if violation_error is not None:
                     raise violation_error
 
                 # Capture the snapshots
@@ -763,7 +763,7 @@ def decorate_with_checker(func: CallableT) -> CallableT:
                     violation_error = await _assert_postconditions_async(
                         postconditions=postconditions, resolved_kwargs=resolved_kwargs
                     )
-                    if violation_error:
+                    if violation_error is not None:
                         raise violation_error
 
                 return result
@@ -775,7 +775,7 @@ def decorate_with_checker(func: CallableT) -> CallableT:
         def wrapper(*args, **kwargs):  # type: ignore
             """Wrap func by checking the preconditions and postconditions."""
             kwargs_error = _assert_no_invalid_kwargs(kwargs)
-            if kwargs_error:
+            if kwargs_error is not None:
                 raise kwargs_error
 
             # We need to create a new in-progress set if it is None as the ``ContextVar`` does not accept
@@ -810,7 +810,7 @@ def decorate_with_checker(func: CallableT) -> CallableT:
                 type_error = _assert_resolved_kwargs_valid(
                     postconditions=postconditions, resolved_kwargs=resolved_kwargs
                 )
-                if type_error:
+                if type_error is not None:
                     raise type_error
 
                 violation_error = _assert_preconditions(
@@ -818,7 +818,7 @@ def decorate_with_checker(func: CallableT) -> CallableT:
                     resolved_kwargs=resolved_kwargs,
                     func=func,
                 )
-                if violation_error:
+                if violation_error is not None:
                     raise violation_error
 
                 # Capture the snapshots
@@ -840,7 +840,7 @@ def decorate_with_checker(func: CallableT) -> CallableT:
                         resolved_kwargs=resolved_kwargs,
                         func=func,
                     )
-                    if violation_error:
+                    if violation_error is not None:
                         raise violation_error
 
                 return result
